@@ -5,6 +5,7 @@
 package refmodel
 
 import (
+	"encoding/base64"
 	"fmt"
 	"sort"
 	"strings"
@@ -340,7 +341,8 @@ func Resolve(ops []*Op) (*State, error) {
 				continue
 			}
 
-			if o.Type == Recover && (o.NextRecovery == c || consumed[o.NextRecovery]) {
+			// (commitments are compared by value: the same multihash may be written in more than one base64url spelling)
+			if o.Type == Recover && (Canon(o.NextRecovery) == Canon(c) || consumed[Canon(o.NextRecovery)]) {
 				continue
 			}
 
@@ -357,7 +359,7 @@ func Resolve(ops []*Op) (*State, error) {
 			break
 		}
 
-		consumed[c] = true
+		consumed[Canon(c)] = true
 		st.Applied = append(st.Applied, applied.ID)
 		st.LastFull = applied.ID
 		st.LastTime, st.LastNumber, st.LastPub = applied.Time, applied.Number, applied.Published
@@ -403,7 +405,7 @@ func Resolve(ops []*Op) (*State, error) {
 				continue
 			}
 
-			if o.NextUpdate == c || consumed[o.NextUpdate] || o.Delta != DeltaOK {
+			if Canon(o.NextUpdate) == Canon(c) || consumed[Canon(o.NextUpdate)] || o.Delta != DeltaOK {
 				continue
 			}
 
@@ -416,7 +418,7 @@ func Resolve(ops []*Op) (*State, error) {
 			break
 		}
 
-		consumed[c] = true
+		consumed[Canon(c)] = true
 		st.Applied = append(st.Applied, applied.ID)
 		st.UpdateC = applied.NextUpdate
 		st.LastTime, st.LastNumber, st.LastPub = applied.Time, applied.Number, applied.Published
@@ -429,6 +431,34 @@ func Resolve(ops []*Op) (*State, error) {
 	}
 
 	return st, nil
+}
+
+// Canon is the canonical base64url spelling of a commitment: a decoder that ignores line breaks and the unused bits of
+// the last character accepts several spellings of one multihash. Text that does not decode stands for itself.
+func Canon(c string) string {
+	b, err := base64.RawURLEncoding.DecodeString(c)
+	if err != nil {
+		return c
+	}
+
+	return base64.RawURLEncoding.EncodeToString(b)
+}
+
+// Respell returns another spelling of the same commitment bytes (see Canon), or c itself when there is none it knows.
+func Respell(c string) string {
+	const alphabet = "ABCDEFGHIJKLMNOPQRSTUVWXYZabcdefghijklmnopqrstuvwxyz0123456789-_"
+
+	if len(c)%4 == 0 || len(c) == 0 {
+		return c[:len(c)/2] + "\n" + c[len(c)/2:] // no spare bits: a line break inside, which the decoder skips
+	}
+
+	// the last character carries spare bits (4 when two characters are left over, 2 when three): set the lowest one
+	i := strings.IndexByte(alphabet, c[len(c)-1])
+	if i < 0 {
+		return c
+	}
+
+	return c[:len(c)-1] + string(alphabet[i^1])
 }
 
 // Describe renders a list of operations for traces.
